@@ -19,6 +19,7 @@ import CBV.Lemmas.C03Guards
 import CBV.Lemmas.C03Trans
 import CBV.Lemmas.C03Rev
 import CBV.Lemmas.C03CalcGen
+import CBV.Lemmas.C03Decode
 import CBV.Gen.TC03
 
 namespace CBV.C03
@@ -1641,5 +1642,54 @@ theorem T_C03_translated_invert :
       | .ok w => ((w, swapPreserve p), none)
       | .error e => ((invertLeft v, p), some e) :=
   ⟨invertBody_source, runI_invert⟩
+
+/-! ### 9. the token encoding checked in Lean: a total decoder that inverts it -/
+
+/-- `decodeBody` (a total prefix parser for statements, conditions and expressions, fuelled by the length of the token
+    list) inverts `encBody` on every well-formed body — single-digit literals, arities and branch lengths, which is what the
+    translator emits (it refuses anything larger).  So the encoding is uniquely decodable: … -/
+theorem T_C03_decode_encode (l : List Stmt) (hw : ∀ s ∈ l, s.wf) : decodeBody (encBody l) = some l :=
+  decodeBody_encBody l hw
+
+/-- … two different well-formed bodies never share a token list (`T_C03_translated_source_*` therefore pins the tree, not
+    just a string of tokens) -/
+theorem T_C03_encode_injective {l l' : List Stmt} (hw : ∀ s ∈ l, s.wf) (hw' : ∀ s ∈ l', s.wf)
+    (h : encBody l = encBody l') : l = l' :=
+  encBody_injective hw hw' h
+
+example : (∀ s ∈ body_count_end_c2c, s.wf) ∧ decodeBody (encBody body_count_end_c2c) = some body_count_end_c2c := by
+  have hw : ∀ s ∈ body_count_end_c2c, s.wf := by
+    simp [body_count_end_c2c, Stmt.wf, Cond.wf, Expr.wf, assignsWf]
+  exact ⟨hw, T_C03_decode_encode _ hw⟩
+
+/-- The ties read through the decoder: the token list generated from the current source *decodes* (in Lean, by the
+    kernel) to the tree the model holds, relation by relation. -/
+theorem T_C03_decoded_source_c2c_count_end : decodeBody CBV.Gen.c03Body_c2c_expansion__count__end_size = some body_c2c_count_end := body_c2c_count_end_decoded
+theorem T_C03_decoded_source_c2c_count_start : decodeBody CBV.Gen.c03Body_c2c_expansion__count__start_size = some body_c2c_count_start := body_c2c_count_start_decoded
+theorem T_C03_decoded_source_c2c_count_total : decodeBody CBV.Gen.c03Body_c2c_expansion__count__total_expansion = some body_c2c_count_total := body_c2c_count_total_decoded
+theorem T_C03_decoded_source_count_end_c2c : decodeBody CBV.Gen.c03Body_count__end_size__c2c_expansion = some body_count_end_c2c := body_count_end_c2c_decoded
+theorem T_C03_decoded_source_count_start_c2c : decodeBody CBV.Gen.c03Body_count__start_size__c2c_expansion = some body_count_start_c2c := body_count_start_c2c_decoded
+theorem T_C03_decoded_source_count_total_c2c : decodeBody CBV.Gen.c03Body_count__total_expansion__c2c_expansion = some body_count_total_c2c := body_count_total_c2c_decoded
+theorem T_C03_decoded_source_count_total_start : decodeBody CBV.Gen.c03Body_count__total_expansion__start_size = some body_count_total_start := body_count_total_start_decoded
+theorem T_C03_decoded_source_end_start_total : decodeBody CBV.Gen.c03Body_end_size__start_size__total_expansion = some body_end_start_total := body_end_start_total_decoded
+theorem T_C03_decoded_source_start_count_c2c : decodeBody CBV.Gen.c03Body_start_size__count__c2c_expansion = some body_start_count_c2c := body_start_count_c2c_decoded
+theorem T_C03_decoded_source_start_end_total : decodeBody CBV.Gen.c03Body_start_size__end_size__total_expansion = some body_start_end_total := body_start_end_total_decoded
+theorem T_C03_decoded_source_total_count_c2c : decodeBody CBV.Gen.c03Body_total_expansion__count__c2c_expansion = some body_total_count_c2c := body_total_count_c2c_decoded
+theorem T_C03_decoded_source_total_start_end : decodeBody CBV.Gen.c03Body_total_expansion__start_size__end_size = some body_total_start_end := body_total_start_end_decoded
+
+/-- the same for the statements of `Chop.invert` (`IStmt`): decoder, round trip, and the generated tokens decode to
+    `invertBody`; the bodies of the four simple validators decode to the model's `validatorBodies` -/
+theorem T_C03_decode_encode_invert (l : List IStmt) (hw : ∀ s ∈ l, s.wf) : decodeIBody (encIBody l) = some l :=
+  decodeIBody_encIBody l hw
+
+example : (∀ s ∈ invertBody, s.wf) ∧ decodeIBody (encIBody invertBody) = some invertBody := by
+  have hw : ∀ s ∈ invertBody, s.wf := by simp [invertBody, IStmt.wf]
+  exact ⟨hw, T_C03_decode_encode_invert _ hw⟩
+
+theorem T_C03_decoded_source_invert_validators :
+    decodeIBody CBV.Gen.c03InvertBody = some invertBody ∧
+    CBV.Gen.c03ValidatorBodies.map (fun p => (p.1, p.2.1, decodeBody p.2.2)) =
+      validatorBodies.map (fun p => (p.1, p.2.1, some p.2.2)) :=
+  ⟨invertBody_decoded, validatorBodies_decoded⟩
 
 end CBV.C03
